@@ -94,6 +94,58 @@ theorem commit_only_eligible_victims (w : World) (hw : WF w) (hk : KeysUnique w)
 theorem abort_marks_nothing (w : World) (nt : Bool) (h : tryPreemptionNoPlugin w nt = none) :
     ((tryPreemptionNoPlugin w nt).map (fun r => r.victims)).getD [] = [] := by rw [h]; rfl
 
+/-- QUEUE PREEMPTION, a victim released in the meantime (the rollback of the marking loop). `late` names the
+    allocations that were released (placeholder replaced / timed out: SetReleased(true)) between the victim collection
+    and the moment TryPreemption marks its final victims; `tryPreemptionLate` is the modelled TryPreemption (first-node
+    rule) including that loop as written (MarkPreempted in order; on the first released victim MarkUnPreempted on all
+    marked so far, failure logged, attempt abandoned). For every world and every `late`:
+    (1) if marking fails on some final victim the attempt is abandoned, "victims released" is logged and the ask has
+        not triggered preemption;
+    (2) however an attempt is abandoned, every allocation that is marked preempted afterwards was marked before the
+        attempt already (`a ∈ w.allocs` with `a.preempted`): an abandoned attempt leaves no victim marked;
+    (3) when it commits, no final victim was released, the ask has triggered preemption, and the allocations are those
+        of the world (with the late releases) with the flag set on exactly the final victims. -/
+theorem abandoned_attempt_leaves_no_mark (w : World) (nt : Bool) (late : List String) :
+    (∀ r, tryPreemptionNoPlugin w nt = some r →
+      (∃ v ∈ r.victims, isReleased (releaseLate late w.allocs) v.key = true) →
+      (tryPreemptionLate w nt late).result = none ∧ (tryPreemptionLate w nt late).released = true ∧
+      (tryPreemptionLate w nt late).triggered = w.ask.triggered) ∧
+    ((tryPreemptionLate w nt late).result = none →
+      (tryPreemptionLate w nt late).triggered = w.ask.triggered ∧
+      ∀ a ∈ (tryPreemptionLate w nt late).allocs, a.preempted = true → a ∈ w.allocs) ∧
+    (∀ r, (tryPreemptionLate w nt late).result = some r →
+      tryPreemptionNoPlugin w nt = some r ∧
+      (∀ v ∈ r.victims, isReleased (releaseLate late w.allocs) v.key = false) ∧
+      (tryPreemptionLate w nt late).released = false ∧ (tryPreemptionLate w nt late).triggered = true ∧
+      (tryPreemptionLate w nt late).allocs = markMap (r.victims.map (·.key)) true (releaseLate late w.allocs)) :=
+  tryPreemptionLate_spec w nt late
+
+/-- The same for the end of TryPreemption after ANY choice of node and victims (`finishTry`, which the driver also runs
+    on the answers of a predicate plugin): a released final victim means abandoned + logged + trigger flag untouched +
+    nothing newly marked (the flags cleared belong to a prefix of the final victims); no released final victim means
+    committed with exactly the final victims marked. -/
+theorem marking_rolls_back_or_marks_final_victims (w : World) (late : List String) (r : TryResult) :
+    ((∃ v ∈ r.victims, isReleased (releaseLate late w.allocs) v.key = true) →
+      (finishTry w late (some r)).result = none ∧ (finishTry w late (some r)).released = true ∧
+      (finishTry w late (some r)).triggered = w.ask.triggered ∧
+      (∃ un, un <+: r.victims.map (·.key) ∧
+        (finishTry w late (some r)).allocs = markMap un false (releaseLate late w.allocs)) ∧
+      ∀ a ∈ (finishTry w late (some r)).allocs, a.preempted = true → a ∈ w.allocs) ∧
+    ((∀ v ∈ r.victims, isReleased (releaseLate late w.allocs) v.key = false) →
+      (finishTry w late (some r)).result = some r ∧ (finishTry w late (some r)).released = false ∧
+      (finishTry w late (some r)).triggered = true ∧
+      (finishTry w late (some r)).allocs = markMap (r.victims.map (·.key)) true (releaseLate late w.allocs)) :=
+  finishTry_some w late r
+
+/-- ... and in a world with unique allocation keys (final victims are then unmarked allocations of the world) an
+    abandoned attempt restores EVERY flag: the allocations are exactly what the late releases left behind, and the
+    preempting resource of every queue is what it was. -/
+theorem abandoned_attempt_restores_every_flag (w : World) (hw : WF w) (hk : KeysUnique w) (nt : Bool) (late : List String)
+    (h : (tryPreemptionLate w nt late).result = none) :
+    (tryPreemptionLate w nt late).allocs = releaseLate late w.allocs ∧
+    ∀ i, preemptingOf { w with allocs := (tryPreemptionLate w nt late).allocs } i = preemptingOf w i :=
+  tryPreemptionLate_abandoned_restores w hw hk nt late h
+
 /-- REQUIRED-NODE PREEMPTION. Every victim is a bound allocation on the required node that does not outrank the ask,
     does not itself require a node, is neither released nor already preempted and shares a resource type with the ask. -/
 theorem reqnode_victims (w : World) (ni : Nat) (avail : Res) (v : PAlloc)
@@ -146,5 +198,35 @@ example : inheritedDisabled [{ parent := none, leaf := false, own := [] }, { par
     { parent := some 1, leaf := true, own := [] }, { parent := some 1, leaf := true, own := [("preemption.policy", "default")] }] 2 = true ∧
   (effSettings [{ parent := none, leaf := false, own := [] }, { parent := some 0, leaf := false, own := [("preemption.policy", "Disabled")] },
     { parent := some 1, leaf := true, own := [] }, { parent := some 1, leaf := true, own := [("preemption.policy", "default")] }] 3).preempt = "default" := by decide
+
+/-- rollback world: root → {a (asker, guaranteed cpu 12), b}; b holds v1 (newest), v2, v3 of cpu 4 each on the full node
+    n0; an ask of cpu 10 needs all three: the final victims are [v1, v2, v3] in that order -/
+def rbA (k : String) (ct : Int) : PAlloc :=
+  { key := k, app := "b", q := 2, node := 0, res := [("cpu", 4)], prio := 0, released := false, preempted := false,
+    req := false, ph := false, self := true, orig := false, ct := ct }
+def rbWorld : World :=
+  { queues := [exQ "root" none false none false 0, exQ "root.a" (some 0) true (some [("cpu", 12)]) false 0,
+               exQ "root.b" (some 0) true none false 0],
+    nodes := [{ id := "n0", cap := [("cpu", 12)], avail := [("cpu", 0)], sched := true }],
+    allocs := [rbA "v1" 2, rbA "v2" 4, rbA "v3" 6],
+    ask := { exAsk with res := [("cpu", 10)], prio := 3 } }
+/-- undisturbed: commits, exactly v1 v2 v3 marked, the ask has triggered preemption -/
+example : (tryPreemptionLate rbWorld false []).result.map (fun r => r.victims.map (·.key)) = some ["v1", "v2", "v3"] ∧
+    markedKeys (tryPreemptionLate rbWorld false []).allocs = ["v1", "v2", "v3"] ∧
+    (tryPreemptionLate rbWorld false []).triggered = true := by decide
+/-- v2 (second of the final victims) released after the victims were collected: v1 is marked, marking v2 fails, v1 is
+    un-marked again; abandoned, logged, not triggered, nothing marked, preempting of root.b still empty -/
+example : (tryPreemptionLate rbWorld false ["v2"]).result.isNone = true ∧
+    (tryPreemptionLate rbWorld false ["v2"]).released = true ∧
+    (tryPreemptionLate rbWorld false ["v2"]).triggered = false ∧
+    markedKeys (tryPreemptionLate rbWorld false ["v2"]).allocs = [] ∧
+    ((tryPreemptionLate rbWorld false ["v2"]).allocs.filter (·.released)).map (·.key) = ["v2"] ∧
+    preemptingOf { rbWorld with allocs := (tryPreemptionLate rbWorld false ["v2"]).allocs } 2 = [] := by decide
+/-- the loop really marks before it un-marks: stopped at v3 it has v1 and v2 to take back -/
+example : markedKeys (markLoop (releaseLate ["v3"] rbWorld.allocs) [] ["v1", "v2"]).1 = ["v1", "v2"] := by decide
+example : markedKeys (markLoop (releaseLate ["v3"] rbWorld.allocs) [] ["v1", "v2", "v3"]).1 = [] ∧
+    (markLoop (releaseLate ["v3"] rbWorld.allocs) [] ["v1", "v2", "v3"]).2 = false := by decide
+/-- a late release of an allocation that is already marked preempted is refused (SetReleased fails) -/
+example : releaseLate ["x"] [{ rbA "x" 2 with preempted := true }] = [{ rbA "x" 2 with preempted := true }] := by decide
 
 end Yk.C07
